@@ -1,4 +1,4 @@
-//@serves C05 C06 C07 C10 C11
+//@serves C05 C06 C07 C10 C11 C09
 //@tier A
 //@include prelude/head.rs
 verus! {
